@@ -51,6 +51,7 @@ def setup(ctx):
     ctx.require("monitor", "churn_requests", 14)
     ctx.require("monitor", "lookalike_media_types", 20)
     ctx.require("monitor", "lookalike_tokens", 40)
+    ctx.require("monitor", "large_uploads", 24)
     ctx.require("monitor", "refused_by_middleware", 30)
 
 
@@ -626,6 +627,17 @@ def run(ctx):
                         if ctx.quick() and (k // ctx.nshards) % 6:
                             continue
                         run_one(ctx, rng, cfg, pspec, size, mime, tok)
+    # ---- uploads of real-world size (a page, a photo): sizes at and around the powers of two that buffers and
+    # chunked writes are cut at; what is stored is the content, byte for byte, once
+    big = [{"tokens": None, "max_size": 1 << 22, "types": None, "delete": True}, {"tokens": {"good"}, "max_size": 1 << 22, "types": None, "delete": True, "via_config": True}]
+    for cfg in big:
+        for pspec in (PATHS[0], PATHS[1]):
+            for size in (4096, 8192, 65535, 65536, 65537, 131072) + (() if ctx.quick() else (16384, 32768, 196608, 262144, 1 << 20, (1 << 20) + 1, 1 << 22, (1 << 22) + 1)):
+                k += 1
+                if not ctx.mine(k):
+                    continue
+                ctx.count("monitor", "large_uploads")
+                run_one(ctx, rng, cfg, pspec, size, "text/plain", ("good", "valid"))
     # ---- media types that merely resemble an allowed one (a longer type that starts with it, a shorter one it starts
     # with, another case, surrounding blanks): "within the allowed media types" means being one of them
     for cfg in configs:
